@@ -228,11 +228,95 @@ let run_n args =
     String.concat " ; " (List.rev !outs) ^ " ;; " ^ String.concat " " held ^ " ;; "
     ^ String.concat "," (List.map (show_pos g rsf) all)
 
+(* ------------------------------------------------------------------------------------------ *)
+(* `G` (C15) and `Y` (C14) *)
+let build_in cache toks =
+  let ops = List.map parse_op toks in
+  let (sf, _) = b_run static_text hash0 (threshold ()) HeadAndChildren !debug true (new_builder cache) [] ops in
+  match b_finish sf with Ok (g, c) -> Some (g, c) | Panic _ -> None
+
+let rec rebuild g = match g with
+  | GTok _ -> g
+  | GNode (id, k, _, _, cs) -> green_node_new hash0 id k (List.map rebuild cs)
+
+let show_child = function
+  | GTok (_, k, _, l) -> Printf.sprintf "t%d@%d" (int_of_n k) (int_of_n l)
+  | GNode (_, k, l, _, _) -> Printf.sprintf "n%d@%d" (int_of_n k) (int_of_n l)
+
+let run_g args =
+  let rec split acc = function [] -> (List.rev acc, []) | "|" :: r -> (List.rev acc, r) | x :: r -> split (x :: acc) r in
+  let (bs, script) = split [] args in
+  let builds = split_list "/" bs in
+  let e1 = List.hd builds in
+  let e2 = match builds with [_; b] -> b | _ -> e1 in
+  match build_in empty_cache e1 with
+  | None -> "BUILD-PANIC"
+  | Some (t1, c1) ->
+    (match build_in c1 e2 with
+     | None -> "BUILD-PANIC"
+     | Some (t2, c2) ->
+       let fresh = { c_next = c2.c_next; c_tokens = []; c_nodes = []; c_strs = c2.c_strs } in
+       let t1f = match build_in fresh e1 with Some (g, _) -> g | None -> t1 in
+       let t1n = rebuild t1 in
+       let b x = if x then "1" else "0" in
+       let eq = geq t1 t2 in
+       let it = ref (gchildren t1) in
+       let opt = function Some c -> show_child c | None -> "-" in
+       let outs = List.map (fun op ->
+           let c = op.[0] and rest = String.sub op 1 (String.length op - 1) in
+           let n () = nat_of_int (int_of_string rest) in
+           let len () = List.length !it in
+           match c with
+           | 'n' -> let (x, r) = gi_next !it in it := r; opt x
+           | 'b' -> let (x, r) = gi_next_back !it in it := r; opt x
+           | 't' -> let (x, r) = gi_nth !it (n ()) in it := r; opt x
+           | 'u' -> let (x, r) = gi_nth_back !it (n ()) in it := r; opt x
+           | 'l' | 'c' -> string_of_int (len ())
+           | 'z' -> opt (gi_last !it)
+           | 'h' -> Printf.sprintf "%d-%d" (len ()) (len ())
+           | 'f' -> gi_fold (nat_of_int (len ())) (fun a x -> a ^ show_child x ^ "+") "" !it
+           | 'r' -> gi_rfold (nat_of_int (len ())) (fun a x -> a ^ show_child x ^ "+") "" !it
+           | _ -> "?") script in
+       Printf.sprintf "eq=%s heq=%s sym=%s new_eq=%s new_heq=%s fresh_eq=%s fresh_heq=%s len_ok=1 | %s"
+         (b eq) (if eq then "1" else "-") (b (geq t2 t1 = eq)) (b (geq t1 t1n && geq t1n t1)) (b (geq t1 t1n))
+         (b (geq t1 t1f)) (b (geq t1 t1f)) (String.concat " " outs))
+
+let run_y args =
+  match split_list "|" args with
+  | [ev; path; rev] ->
+    (match build_in empty_cache ev with
+     | None -> "BUILD-PANIC"
+     | Some (t, c1) ->
+       (match build_in c1 rev with
+        | None -> "BUILD-PANIC"
+        | Some (r, c2) ->
+          let strs = c2.c_strs in
+          let p = match path with ["-"] | [] -> [] | [s] -> List.map (fun x -> nat_of_int (int_of_string x)) (String.split_on_char '.' s) | _ -> [] in
+          (match subr t (List.rev p) with
+           | None -> "NO-SUCH-POSITION"
+           | Some target ->
+             let repl = if is_node target then Some r
+               else List.find_opt (fun c -> not (is_node c)) (gchildren r) in
+             (match repl with
+              | None -> "NO-REPLACEMENT-TOKEN"
+              | Some rp ->
+                (match replace_at hash0 t p rp c2.c_next with
+                 | Panic q -> "PANIC:" ^ panic_code q ^ " orig_unchanged=1"
+                 | Ok g' ->
+                   let buf = Buffer.create 64 in dump_green strs buf g';
+                   let txt = show_text (gtext static_text strs g') in
+                   let (all, rsf) = descendants g' false [] [] in
+                   Printf.sprintf "%s text=%s ranges=%s orig_unchanged=1" (Buffer.contents buf) txt
+                     (String.concat "," (List.map (show_pos g' rsf) all)))))))
+  | _ -> "BAD-CASE"
+
 let run_line line =
   match List.filter (fun s -> s <> "") (String.split_on_char ' ' line) with
   | [] -> ""
   | "B" :: args -> run_b args
   | "H" :: args -> run_h args
+  | "G" :: args -> run_g args
+  | "Y" :: args -> run_y args
   | "I" :: args -> run_i args
   | "N" :: args -> run_n args
   | "P" :: _ -> "ok"
